@@ -12,7 +12,7 @@
 From Coq Require Import String Ascii.
 From Coq Require Import List ZArith Bool.
 From TskVerif Require Import Base.Common Gen.Generated C17.Model C17.B64Proofs C17.TsvProofs
-  C17.OrderProofs C17.RoundtripProofs C17.DecProofs.
+  C17.OrderProofs C17.RoundtripProofs C17.DecProofs C17.ExtraProofs C17.WsProofs.
 Import ListNotations.
 Open Scope Z_scope.
 
@@ -163,3 +163,64 @@ Proof. exact dec_roundtrip. Qed.
 
 Theorem codecs_ok_inhabited : codecs_ok Z dec_print dec_parse dec_print dec_print dec_parse.
 Proof. exact codecs_ok_decimal. Qed.
+
+(* ---- extension round ---- *)
+
+(* strict=False (str.split(None)): whatever whitespace surrounds and separates the words of a
+   line — leading, trailing, runs of blanks, TABs, CR, VT, FF, 0x1c-0x1f — the tokens are
+   exactly the words. *)
+Theorem split_whitespace_layout : forall g0 f0 t trail,
+  all_space g0 -> word f0 -> inner_gaps_ok t -> all_space trail ->
+  split_ws (layout ((g0, f0) :: t) trail) = f0 :: map snd t.
+Proof. exact split_ws_layout. Qed.
+
+(* On tables whose header and cells are words the relaxed parsers compute what the strict
+   ones compute, for every row function: the strict-mode theorems transfer. *)
+Theorem relaxed_mode_agrees_with_strict :
+  forall (R : Type) required min_tokens (row : acc_t -> acc_t -> res (list R)) hdr rows,
+  word_row hdr -> Forall word_row rows ->
+  parse_generic_with split_ws required min_tokens row (table_text hdr rows) =
+  parse_generic required min_tokens row (table_text hdr rows).
+Proof. intros R. exact (@ws_agrees_with_strict R). Qed.
+
+Theorem parse_column_order_invariant_relaxed :
+  forall (R : Type) (row : acc_t -> acc_t -> res (list R)) (known : list bytes),
+  (forall a a' g g' : acc_t,
+      (forall n, In n known -> a n = a' n) -> (forall n, In n known -> g n = g' n) ->
+      row a g = row a' g') ->
+  forall required min_tokens cols cols' (recs : list (bytes -> bytes)),
+  incl required known ->
+  word_row cols -> word_row cols' ->
+  Nat.ltb (length cols) min_tokens = false -> Nat.ltb (length cols') min_tokens = false ->
+  (forall rec c, In rec recs -> word (rec c)) ->
+  (forall n, In n known -> (In n cols <-> In n cols')) ->
+  parse_generic_with split_ws required min_tokens row (render cols recs) =
+  parse_generic_with split_ws required min_tokens row (render cols' recs).
+Proof. intros R. exact (@column_order_invariant_ws R). Qed.
+
+(* Written but never read (regenerated from /repo): the edge metadata column, and the
+   whole provenance table (no parse_provenances, no load_text parameter). *)
+Theorem edge_metadata_has_no_reader :
+  In "metadata"%string c17_dump_header_edges
+  /\ ~ In "metadata"%string (c17_parse_required_edges ++ c17_parse_optional_edges).
+Proof. exact edge_metadata_no_reader. Qed.
+
+Theorem provenances_have_no_reader :
+  c17_provenances_have_reader = false
+  /\ ~ In "provenances"%string c17_load_text_params
+  /\ c17_dump_header_provenances = ["id"; "timestamp"; "record"]%string
+  /\ c17_dump_rowfmt_provenances = ["id|"; "timestamp|"; "record|"; ""]%string.
+Proof. exact provenances_no_reader. Qed.
+
+(* load_text without a population file: every population a node refers to exists
+   afterwards, the added rows are empty, none is added if no node refers to one. *)
+Theorem load_text_population_backfill : forall pops,
+  (forall p, In p pops -> 0 <= p -> p < zlen (backfill_populations pops))
+  /\ Forall (fun m => m = []) (backfill_populations pops)
+  /\ (Forall (fun p => p = -1) pops -> backfill_populations pops = []).
+Proof. exact backfill_spec. Qed.
+
+(* base64_metadata=False: repr(bytes) is printable ASCII — the rows of such a dump keep
+   their TABs and newline (the metadata read back is the repr itself: pinned, not a round trip). *)
+Theorem repr_metadata_printable : forall l, Forall is_byte l -> Forall printable (bytes_repr l).
+Proof. exact bytes_repr_printable. Qed.
